@@ -64,6 +64,12 @@ def stringsIndex (s sep : List α) : Int :=
 @[reducible] def stringsToUpper (s : List α) : List α := s.map cx.upper
 /-- `unicode.IsSpace(r)` -/
 @[reducible] def unicodeIsSpace (r : α) : Bool := cx.isSpace r
+/-- `strings.ContainsRune(s, r)` -/
+@[reducible] def stringsContainsRune (s : List α) (r : α) : Bool := decide (r ∈ s)
+/-- `string(r)` for a rune `r` (a valid code point): the one-rune string -/
+@[reducible] def stringOfRune (r : α) : List α := [r]
+/-- `r++` / `r + 1` on a rune (32-bit wrap-around not modelled) -/
+@[reducible] def runeSucc (r : α) : α := cx.phNext r
 /-- `unicode.IsSpace(gc[0])` inside a (pure) closure over a grapheme cluster: clusters are never
 empty (Gem/Theory), the model maps `[]` to "is a space" -/
 @[reducible] def isSpaceHead (gc : List α) : Bool := !notSpaceHead cx gc
